@@ -84,6 +84,8 @@ package main
 //@   trace[C09,hostnames-rejected] each net.ParseIP satisfies $res0 == nil ==> result != nil
 //@   trace[C09,malformed-address-rejected] each net.SplitHostPort satisfies $res2 != nil ==> result != nil
 //@   trace[C09,duplicate-listener-rejected] each maplookup satisfies $res1 == true ==> result != nil
+//@   trace[C09,every-listener-checked-for-duplicates] loop 2 exactly 1 maplookup
+//@   trace[C09,every-listener-recorded] loop 2 exactly 1 mapupdate
 
 //@ func (*OutlineServer).runConfig
 //@   props C10 C18
